@@ -431,7 +431,7 @@ def refs_proto(P, targets, jobdir, full, services=True):
     lines = ['syntax = "proto3";', pkg_stmt(P)]
     for t in sorted(set(targets)):
         if tuple(t) != tuple(P) or True:
-            lines.append(f'import "{jobdir}/types_{"_".join(t) or "root"}.proto";')
+            lines.append(f'import "t/types_{"-".join(t) or "root"}.proto";')
     exp = []
     body, n = [], 1
     rpcs = []
@@ -459,9 +459,9 @@ def refs_proto(P, targets, jobdir, full, services=True):
             rpcs.append(f"  rpc S{ti}(stream {fq(Q, b)}) returns (stream {fq(Q, a)});")
             exp.append({"rpc": f"u{ti}", "in": a, "out": b, "target": list(Q), "streaming": False})
             exp.append({"rpc": f"s{ti}", "in": b, "out": a, "target": list(Q), "streaming": True})
-    lines.append("message Refs {\n" + "\n".join(body) + "\n}")
+    lines.append(f"message Refs{jobdir.upper()} {{\n" + "\n".join(body) + "\n}")
     if services and rpcs:
-        lines.append("service Svc {\n" + "\n".join(rpcs) + "\n}")
+        lines.append(f"service Svc{jobdir.upper()} {{\n" + "\n".join(rpcs) + "\n}")
     return "\n".join(lines) + "\n", exp
 
 
@@ -473,12 +473,12 @@ def make_job(jid, edges, full, label=None, root_mode="pkg"):
         pk |= set(qs)
     protos, expect = {}, {}
     for P in sorted(pk):
-        protos[f"{jobdir}/types_{'_'.join(P) or 'root'}.proto"] = types_proto(P)
+        protos[f"t/types_{'-'.join(P) or 'root'}.proto"] = types_proto(P)
     for P, qs in sorted(edges.items()):
         text, exp = refs_proto(P, qs, jobdir, full)
-        protos[f"{jobdir}/refs_{'_'.join(P) or 'root'}.proto"] = text
+        protos[f"{jobdir}/refs_{'-'.join(P) or 'root'}.proto"] = text
         expect[".".join(P)] = exp
-    return {"id": jid, "root": f"c13r{os.getpid()}_{jid}", "protos": protos, "expect": expect, "label": label,
+    return {"id": jid, "root": f"c13r{os.getpid()}_{jid}", "refs": f"RefsJ{jid}", "svc": f"SvcJ{jid}", "protos": protos, "expect": expect, "label": label,
             "packages": sorted(".".join(P) for P in pk), "root_mode": root_mode}
 
 
@@ -531,7 +531,7 @@ def check_job(job, modname):
     for p, exps in job["expect"].items():
         mod = mods[p]
         try:
-            Refs = mod.Refs
+            Refs = getattr(mod, job["refs"])
             hints = typing.get_type_hints(Refs, vars(mod))
             bp_hints = Refs._type_hints()
         except BaseException as e:
@@ -573,15 +573,17 @@ def check_job(job, modname):
                         fails.append({"what": f"rpc target classes of {q} not uniquely generated", "pkg": p, "exp": e}); continue
                     tin, tout = tin[0], tout[0]
                     n += 1
-                    for cname in ("SvcStub", "SvcBase"):
+                    for cname in (job["svc"] + "Stub", job["svc"] + "Base"):
                         fn = getattr(getattr(mod, cname), e["rpc"])
-                        h = typing.get_type_hints(fn, vars(mod))
+                        # (Deadline / MetadataLike are TYPE_CHECKING-only names: evaluate the message annotations only)
+                        h = {k: (eval(v, dict(vars(mod))) if isinstance(v, str) else v) for k, v in fn.__annotations__.items()
+                             if k not in ("timeout", "deadline", "metadata")}
                         ins = [c for k, v in h.items() if k != "return" for c in leaves(v, []) if isinstance(c, type) and issubclass(c, betterproto.Message)]
                         outs = [c for c in leaves(h.get("return"), []) if isinstance(c, type) and issubclass(c, betterproto.Message)]
                         if set(ins) != {tin} or set(outs) != {tout}:
                             fails.append({"what": f"{cname}.{e['rpc']} annotations resolve to in={ins} out={outs}, expected {tin} / {tout}", "pkg": p, "exp": e})
                     if not svc_hints:
-                        svc_hints = mod.SvcBase().__mapping__()
+                        svc_hints = getattr(mod, job["svc"] + "Base")().__mapping__()
                     route = [r for r in svc_hints if r.endswith("/" + e["rpc"][0].upper() + e["rpc"][1:])]
                     hd = svc_hints[route[0]]
                     if hd.request_type is not tin or hd.reply_type is not tout:
@@ -621,7 +623,7 @@ def worker_main(argv):
             req = plugin_pb2.CodeGeneratorRequest()
             names = sorted(job["protos"])
             # dependencies first (types before refs), as protoc orders them
-            names.sort(key=lambda n: (0 if "/types_" in n else 1, n))
+            names.sort(key=lambda n: (0 if n.startswith("t/types_") else 1, n))
             for nme in names:
                 req.proto_file.append(by_name[nme])
                 req.file_to_generate.append(nme)
